@@ -271,6 +271,12 @@ func (c *nodeCore) opSelect(h *history, t int, ep string, allow bool) {
 			if u.EndpointID() != ep {
 				res = "WRONG-ENDPOINT:remote"
 			}
+			if nu, isNode := u.(*upstream.NodeUpstream); isNode && nu.VNodeID() == "local" {
+				res = "SELF-FORWARD"
+			}
+			if !allow {
+				res = "FORWARDED-A-FORWARDED-REQUEST"
+			}
 		}
 	} else if ok {
 		res = "nil-upstream"
@@ -532,6 +538,52 @@ func progE() schedProgram {
 	}}
 }
 
+// progF: requests (fresh and already-forwarded) for an endpoint whose first
+// local upstream is connecting and disconnecting, with and without another
+// node serving it: a request is served locally, forwarded to that other
+// node (only if it has not been forwarded yet) or refused - never handed to
+// the node itself.
+func progF(withRemote bool) schedProgram {
+	var last string
+	name := "F-forward-while-connecting"
+	if withRemote {
+		name = "F-forward-while-connecting-with-remote"
+	}
+	return schedProgram{Name: name, outcome: &last, Build: func() ([]func(), func(o *vsync.Outcome) []string) {
+		c := newNodeCore()
+		h := &history{}
+		if withRemote {
+			c.learnRemote("nY", "10.0.0.2:7000", "e1")
+		}
+		u1 := c.up("u1", "e1")
+		bodies := []func(){
+			func() { c.opAdd(h, 0, u1); c.opRemove(h, 0, u1) },
+			func() { c.opSelect(h, 1, "e1", true); c.opSelect(h, 1, "e1", true) },
+			func() { c.opSelect(h, 2, "e1", false); c.opSelect(h, 2, "e1", true) },
+		}
+		check := func(o *vsync.Outcome) []string {
+			var msgs []string
+			for _, op := range h.ops {
+				if op.result == "SELF-FORWARD" {
+					msgs = append(msgs, "select-forwards-to-self: "+op.name+" returned the local node as the node to forward to: "+h.String())
+				}
+				if op.result == "FORWARDED-A-FORWARDED-REQUEST" {
+					msgs = append(msgs, "select-forwards-twice: "+op.name+" returned a node although the request was already forwarded: "+h.String())
+				}
+			}
+			msgs = append(msgs, c.quiescent()...)
+			if !h.linearisable(func() *specState {
+				return &specState{members: map[string]map[string]bool{}, remote: map[string]bool{"e1": withRemote}}
+			}) {
+				msgs = append(msgs, "select-not-linearisable: no order of the overlapping Add/Remove calls explains the Select results: "+h.String())
+			}
+			last = c.finalState() + " " + selectResults(h)
+			return msgs
+		}
+		return bodies, check
+	}}
+}
+
 func allSchedPrograms() []schedProgram {
-	return []schedProgram{progA(), progB(), progC(), progD(), progE()}
+	return []schedProgram{progA(), progB(), progC(), progD(), progE(), progF(false), progF(true)}
 }
